@@ -2,7 +2,7 @@
 # Runs every self-test mutant (selftest/mutants/*.diff; *.fix.diff are applied in reverse) and every kept
 # seeded change (seeded/*/patch.diff) against the quick check of its property; prints one line per change.
 # A change whose file name starts with several ids (C02_C07_...) is run against each of them.
-# usage: tools/selftest.sh [tier] [parallel]     exit 0 iff every change is caught by at least one of its properties
+# usage: [FILTER=<regex on the change's path>] tools/selftest.sh [tier] [parallel]     exit 0 iff every change is caught by at least one of its properties
 #   CAUGHT  = exit 1 with a VIOLATION line of that property;  INCONCL = the check refused to say "held" (exit 2);
 #   MISSED  = the check said "held"
 cd "$(dirname "$0")/.."
@@ -37,4 +37,4 @@ for d in seeded/*/; do
   id=$(basename $d); P=${id%%_*}
   echo "- ${d}patch.diff $P seeded/$id"
 done
-} | xargs -P $PAR -L 1 bash -c 'one "$0" "$1" "$2" "$3"' | sort -k2
+} | grep -E "${FILTER:-.}" | xargs -P $PAR -L 1 bash -c 'one "$0" "$1" "$2" "$3"' | sort -k2
